@@ -629,6 +629,7 @@ pub fn check(prop: &dyn Property, tier: Tier, out: &Stdio) -> i32 {
                         "format": 1,
                         "property": prop.id(),
                         "verif_seed": seed,
+                        "tier": tier.name(),
                         "run": idx,
                         "run_seed": format!("{rs:#x}"),
                         "violation": min_v.to_json(),
@@ -694,6 +695,11 @@ pub fn replay_file(prop: &dyn Property, path: &str, out: &Stdio) -> i32 {
                 1
             }
             None => {
+                if std::env::var("PATSIM_STATS").is_ok() {
+                    for (k, v) in &acc.counters {
+                        out.say(&format!("  {k} = {v}"));
+                    }
+                }
                 out.say("replay: run returned without violation");
                 0
             }
